@@ -6,7 +6,7 @@
    Checker: SpecLayout.fits_b.  Only property theorems live here. *)
 From RichModel Require Import Prelude Cells Segments Ratio Frames Layout SpecLayout.
 From RichModel Require Table Wrap.
-From RichProofs Require Import LayoutP LayoutP2 LayoutP8 LayoutP3 LayoutP4 LayoutP5 LayoutP6 LayoutP7.
+From RichProofs Require Import LayoutP LayoutP2 LayoutP8 LayoutP9 LayoutP3 LayoutP4 LayoutP5 LayoutP6 LayoutP7.
 (* T2 tie: ratio_reduce/ratio_distribute/_collapse_widths and the measurement arithmetic regenerated from /repo and proved equal to the hand model *)
 From RichProofs.bridge Require BridgeRatio BridgeMeasure.
 
@@ -108,11 +108,26 @@ Example C01_collapse_below_nonvacuous : collapse_widths [5; 2; 9] [true; true; t
 Proof. vm_compute. reflexivity. Qed.
 
 Theorem C01_calc_widths_bound : forall o cols M ws,
-  Table.o_minw o = None -> cols <> [] -> Forall col_free cols -> pad_ok o ->
+  cols <> [] -> Forall col_free cols -> pad_ok o ->
   Table.calc_widths false false o cols M = Ok ws ->
   length ws = length cols /\ Forall (fun w => 1 <= w) ws /\ sumZ ws <= Z.max M (zlen cols).
-Proof. exact calc_widths_bound. Qed.
+Proof. exact calc_widths_bound_minw. Qed.
 Print Assumptions C01_calc_widths_bound.
+
+(* (the table's own min_width option is inside the domain: it pads up to min(min_width, budget) only)
+
+   KNOWN FINDING (genuine, low severity; found by C07's builder): a COLUMN min_width is re-imposed after the collapse.
+   Table(Column(min_width=10), "b", "c", box=None, padding=0) with the row ("a", "b"*12, "c"*12) at W = 24 >= smin = 12
+   is 26 cells wide: the collapse levels the three columns (8, 8, 8) and the re-measure clamps the first back up to 10.
+   Such a column is not free to wrap below its minimum; `wrappable` (col_ok) excludes column width / min_width /
+   no_wrap, and this witness shows the exclusion is necessary.  Replayed on the implementation
+   (corpus/C01_known/C01-column-min-width-reimposed.json). *)
+Theorem C01_column_min_width_refuted :
+  smin col_minw_tbl = 12 /\ wrappable col_minw_tbl = false
+  /\ exists lines, render (cf0 24) col_minw_tbl ro0 24 = Ok lines /\ map line_len lines = [26; 26]
+                   /\ fits_b 24 (map line_text lines) = false.
+Proof. exact column_min_width_refuted. Qed.
+Print Assumptions C01_column_min_width_refuted.
 
 (* KNOWN FINDING (genuine, low severity): ProgressBar.__rich_console__ ends without a new line -- Bar, Rule,
    Text and every frame end with one -- so inside a RenderGroup the next renderable continues the bar's line:
